@@ -148,18 +148,114 @@ pub fn check(c: &Case, st: &mut Stats) -> Check {
     }
 }
 
+// ---------------------------------------------------------------------------------------
+// flows: what follows the identification exchange is not an identification string
+
+#[derive(Clone, Debug, Serialize, Deserialize, PartialEq)]
+pub struct FlowCase {
+    pub scn: Scenario,
+    pub sport: u16,
+    pub dport: u16,
+    /// first segment: a valid identification string (tail dropped) or one without any CR / LF
+    pub first: SshBanner,
+    pub first_valid: bool,
+    /// later segments: bytes without CR and LF (binary packets, key-exchange-looking records,
+    /// text), so that no line — hence no identification string — can end inside them
+    pub later: Vec<Hex>,
+}
+
+fn no_line_end(mut v: Vec<u8>) -> Vec<u8> {
+    for b in v.iter_mut() {
+        if *b == b'\r' || *b == b'\n' {
+            *b = 0x7f;
+        }
+    }
+    v
+}
+
+pub fn flow_strategy() -> impl Strategy<Value = FlowCase> {
+    let later = prop_oneof![
+        // SSH binary packet: length, padding length, message code (20 = KEXINIT), payload
+        3 => (vec(any::<u8>(), 16..200), prop::sample::select(vec![20u8, 30, 21, 1, 2])).prop_map(|(body, code)| {
+            let mut v = ((body.len() + 2) as u32).to_be_bytes().to_vec();
+            v.push(4);
+            v.push(code);
+            v.extend_from_slice(&body);
+            Hex(no_line_end(v))
+        }),
+        2 => vec(any::<u8>(), 1..80).prop_map(|v| Hex(no_line_end(v))),
+        2 => "SSH-2\\.0-[A-Za-z0-9_.]{1,20}( [ -~]{0,20})?".prop_map(|s| Hex(s.into_bytes())),
+        1 => "[ -~]{1,40}".prop_map(|s| Hex(s.into_bytes())),
+    ];
+    (scenario_quiet(Fam::Any), port(), port(), ssh_banner(), prop::bool::weighted(0.8), vec(later, 1..=4)).prop_map(|(scn, sport, dport, mut first, first_valid, later)| {
+        first.tail = Hex(vec![]);
+        FlowCase { scn, sport, dport, first, first_valid, later }
+    })
+}
+
+pub fn flow_check(c: &FlowCase, st: &mut Stats) -> Check {
+    use crate::vf::session::*;
+    Sut::reset();
+    st.eval();
+    let sut = Sut::new(&c.scn.cfg);
+    let first: Vec<u8> = if c.first_valid { c.first.bytes() } else { no_line_end(c.first.head()) };
+    let mut stream = first.clone();
+    let mut lens = vec![first.len()];
+    for l in &c.later {
+        lens.push(l.len());
+        stream.extend_from_slice(l);
+    }
+    let flow = Flow { net: c.scn.net.clone(), sport: c.sport, dport: c.dport };
+    st.frames(1 + lens.len() as u64);
+    let replies = deliver(&sut, &flow, 4711, &stream, &lens).map_err(Failure::new)?;
+    st.class(&format!("flow:first-{}:{}-later-segments", if c.first_valid { "valid" } else { "unterminated" }, c.later.len()));
+    st.nontrivial_hash(fnv(&stream));
+    let mut off = 0usize;
+    for (i, rp) in replies.iter().enumerate() {
+        let seg = &stream[off..off + lens[i]];
+        off += lens[i];
+        let show = || format!("{:?}", String::from_utf8_lossy(&seg[..seg.len().min(80)]));
+        match rp {
+            SegReply::Data(p) if i == 0 && c.first_valid => {
+                vensure!(p == b"SSH-2.0-1\r\n", "identification string answered with {:?} (sent {})", String::from_utf8_lossy(&p[..p.len().min(60)]), show());
+            }
+            SegReply::Data(p) => {
+                vensure!(!p.starts_with(b"SSH-"), "segment #{} of the flow holds no line end, hence no identification string, but was answered with {:?}: {} (first segment {:?})", i, String::from_utf8_lossy(&p[..p.len().min(40)]), show(), String::from_utf8_lossy(&first[..first.len().min(60)]));
+            }
+            SegReply::Ack | SegReply::Silence => {
+                if i == 0 && c.first_valid {
+                    vfail!("well-formed identification string not answered over tcp: {}", show());
+                }
+            }
+            SegReply::Other(o) => {
+                if o.starts_with("panic") {
+                    return Err(Failure::keyed("panic", format!("segment #{}: {}", i, o)));
+                }
+            }
+        }
+    }
+    st.sample(|| json!({"first": String::from_utf8_lossy(&first[..first.len().min(60)]), "later_lens": c.later.iter().map(|l| l.len()).collect::<Vec<_>>()}));
+    Ok(())
+}
+
 impl Prop for C18 {
     fn id(&self) -> &'static str {
         "C18"
     }
     fn rule(&self) -> &'static str {
-        "cases = client identification strings 'SSH-' ('2.0'|'1.99') [0-9.]* '-' software [SP comment] CR LF [tail] with software 1..79 and comment 0..79 arbitrary bytes (NUL, high bytes, lone CR at every position, bare LF; SP switches to the comment), over UDP and over one segment of a handshaken TCP flow, both IP versions, log levels Off..Trace; negatives: every CR LF pair removed (nothing / LF only / trailing lone CR / LF LF), a character other than digit, dot or dash in the version field, missing second dash; Gh0st magic + 0..299 arbitrary bytes. Oracle: positive => application reply exactly 'SSH-2.0-1\\r\\n'; negative => none; Gh0st => reply starts with the magic, LE32 at offset 5 = frame length, LE32 at offset 9 = U, zlib-inflating the remainder (flate2's decoder, whole input consumed) yields exactly U bytes. Non-trivial = every case; distinct by hash of (bytes, transport)."
+        "cases = client identification strings 'SSH-' ('2.0'|'1.99') [0-9.]* '-' software [SP comment] CR LF [tail] with software 1..79 and comment 0..79 arbitrary bytes (NUL, high bytes, lone CR at every position, bare LF; SP switches to the comment), over UDP and over one segment of a handshaken TCP flow, both IP versions, log levels Off..Trace; negatives: every CR LF pair removed (nothing / LF only / trailing lone CR / LF LF), a character other than digit, dot or dash in the version field, missing second dash; Gh0st magic + 0..299 arbitrary bytes, Gh0st header with consistent / lying length fields, and real client packets (header + zlib stream of a command token followed by 0..419 structure bytes, login token 0x66 weighted, compression levels 0..9). Flows: a valid identification string followed on the same TCP flow by 1..4 segments that hold no CR and no LF (binary packets with KEXINIT-like framing, text, 'SSH-2.0-...' without line end), or an unterminated first segment followed by the same: only the identification string may be answered with an SSH banner. Oracle: positive => application reply exactly 'SSH-2.0-1\\r\\n'; negative => none; Gh0st => reply starts with the magic, LE32 at offset 5 = frame length, LE32 at offset 9 = U, zlib-inflating the remainder (flate2's decoder, whole input consumed) yields exactly U bytes. Non-trivial = every case; distinct by hash of (bytes, transport)."
     }
     fn run(&self, ctx: &mut RunCtx) {
         let n = ctx.share(ctx.tier.n(800_000, 10_000_000));
         ctx.run_generated("banner", n, case_strategy(), check);
+        let m = ctx.share(ctx.tier.n(200_000, 3_000_000));
+        ctx.run_generated("flow", m, flow_strategy(), flow_check);
     }
-    fn replay(&self, _stream: &str, case: &Value, st: &mut Stats) -> Check {
-        check(&serde_json::from_value(case.clone()).map_err(|e| Failure::new(format!("bad case: {}", e)))?, st)
+    fn replay(&self, stream: &str, case: &Value, st: &mut Stats) -> Check {
+        let bad = |e: serde_json::Error| Failure::new(format!("bad case: {}", e));
+        match stream {
+            "flow" => flow_check(&serde_json::from_value(case.clone()).map_err(bad)?, st),
+            _ => check(&serde_json::from_value(case.clone()).map_err(bad)?, st),
+        }
     }
 }
